@@ -128,7 +128,7 @@ class Session:
         target = self.container(self.objs[i]) if via_obj else self.users[i]
         if isinstance(target, dict):
             key = rng.choice(['x-a', 'x-b', 'lit', 'k'])
-            v = rng.choice([rng.randint(0, 300), 'v', True, [1], {'n': 1}])
+            v = rng.choice([rng.randint(0, 300), 'v', True, [1], {'n': 1}, 40000, 65535, 3000000000, 2 ** 31, -129, 32768, [40000, 3000000000]])
             target[key] = v
             self.add('HMutate', via='obj' if via_obj else 'user', i=i + 1, key=[ord(c) for c in key], name='', v=abstract(v))
         elif isinstance(target, base.BasicProperties):
@@ -217,4 +217,6 @@ def run_session(rec, rng, props, nops):
                 s.unmarshal(bytes(rng.getrandbits(8) for _ in range(rng.randint(0, 30))))
         else:
             s.toggle()
+            if last is not None and rng.random() < 0.7:
+                last = s.marshal() or last          # the same objects again under the other setting of the switch
     rec.add('Toggle', props, **actions.toggle('false'))
